@@ -24,6 +24,20 @@ def load_claims():
                 out[pid] = mod
     return out
 
+def level_text(mod, level):
+    rules = getattr(mod, 'RULES', {})
+    base = getattr(mod, 'LEVEL_TEXT', getattr(mod, 'EXPLANATION', ''))
+    if level == 'proof':
+        head = ('Every obligation (one per rule instance of %s) is discharged by the static checker on the current tree, for all inputs / '
+                'histories / K, in exact arithmetic; the check fails (and the evidence level drops to "other") if a single instance is '
+                'violated or undecided. It is a proof of the structural clauses named by the rules, which are necessary conditions of the '
+                'property, not of floating-point behaviour. ' % ', '.join(sorted(rules)))
+    else:
+        head = ('Structural rule check (%s): each rule instance is decided for all inputs / histories from the MIR of the current tree; '
+                'the clauses are necessary conditions of the property, value-level clauses are declined (see level_note). ' % ', '.join(sorted(rules)))
+    return head + base
+
+
 def main():
     claims = load_claims()
     checks = []
@@ -38,7 +52,7 @@ def main():
             'engine': 'affcheck',
             'level_claimed': {
                 'category': level,
-                'text': getattr(mod, 'LEVEL_TEXT', getattr(mod, 'EXPLANATION', '')),
+                'text': level_text(mod, level),
                 'design_ref': 'DESIGN.md §5 ' + pid,
             },
             'level_note': getattr(mod, 'LEVEL_NOTE', 'Trusted: rustc nightly front end + MIR construction, the /verif/driver fact serialiser, the affcheck rule engine. '
